@@ -126,6 +126,13 @@ def date_values(kind):
     common = st.sampled_from([
         '1970-01-01T00:00:00', '2000-02-29T12:30:45', '1999-12-31T23:59:59',
         '2024-01-01T00:00:00', '1900-01-01T00:00:00'])
+    if kind not in ('dt64s', 'dt64ms'):
+        # fractions that are not exactly representable in binary
+        common = common | st.sampled_from([
+            '2021-03-04T05:06:07.000249', '2021-03-04T05:06:07.000251',
+            '2021-03-04T05:06:07.000489', '2001-09-09T01:46:40.999999',
+            '2001-09-09T01:46:40.000001', '1969-12-31T23:59:59.000019',
+            '2038-01-19T03:14:07.000573'])
     whole_days = st.dates(datetime.date(1900, 1, 1),
                           datetime.date(2100, 1, 1)).map(
         lambda d: d.isoformat() + 'T00:00:00')
